@@ -97,6 +97,8 @@ def copy_env(func_node):
                     'sort', 'reverse', 'appendleft', 'popleft') and \
                 isinstance(node.func.value, ast.Name):
             banned.add(node.func.value.id)
+        for extra in getattr(node, '_inline_body', None) or ():
+            stack.append(extra)
         for child in ast.iter_child_nodes(node):
             if isinstance(child, (ast.comprehension,)):
                 for leaf in ast.walk(child.target):
